@@ -439,11 +439,11 @@ def mk_double_qnet(batch1=False):
         q, q1, q2 = mk_double(E, "q")
         v = E.call(q, x)
         a, b = net_call(E, q1, x), net_call(E, q2, x)
+        E.oblige("canary.double_qnet", eq(T.as_tensor(v).at(0, 0), a.at(0, 0)), assume_after=False)
         oblige_tensor_eq(E, "ContinuousClippedDoubleQNet.call_is_min_of_both", v, T.tmin(a, b))
         m = E.call(E.getattr(q, "mean"), x)
         oblige_tensor_eq(E, "ContinuousClippedDoubleQNet.mean_is_average_of_both", m, (a + b) / 2)
         E.oblige("ContinuousClippedDoubleQNet.min_le_mean", C.compare("<=", T.as_tensor(v).at(0, 0), T.as_tensor(m).at(0, 0)))
-        E.oblige("canary.double_qnet", eq(T.as_tensor(v).at(0, 0), a.at(0, 0)), assume_after=False)
 
     return h
 
@@ -674,6 +674,7 @@ def flags01_2d(E, name, N, H):
 
 def mk_mrq(batch1=False, act1=False, inline_horizon=None):
     def h(E):
+        short_timeouts()
         N, D, A = dims(E, batch1=batch1, act1=act1)
         H = inline_horizon if inline_horizon is not None else E.dim("horizon", 1)
         Zs, Za, Zsa = E.dim("zs_dim"), E.dim("za_dim"), E.dim("zsa_dim")
@@ -828,11 +829,23 @@ def setup_encoder(shared):
     shared.observers.append(observe)
 
 
+def short_timeouts():
+    """the proofs of these tasks take well under a second per query; a refutation on
+    the concrete-size re-run is a huge nonlinear query - cap the solvers so that a
+    violation is reported (failed / undecided) within the task budget instead of a
+    task timeout (per-task process, no effect on other tasks)"""
+    from pyvc import state
+
+    state.Z3_TIMEOUT_MS = min(state.Z3_TIMEOUT_MS, 8000)
+    state.run_cvc5.__defaults__ = (min(state.CVC5_TIMEOUT_S, 8),)
+
+
 def mk_encoder_loss(horizon, batch1=False, act1=False):
     def h(E):
         from pyvc.core import NamedTuple, NamedTupleType
         from pyvc.lib.jax_model import nn_softmax
 
+        short_timeouts()
         E.st.ghost["hashcons"] = {}
         N, D, A = dims(E, batch1=batch1, act1=act1)
         H = horizon
@@ -892,8 +905,7 @@ def mk_encoder_loss(horizon, batch1=False, act1=False):
             E.oblige(f"canary.{p}", eq(total, 0), assume_after=False)
         gd = C.gdeps_of(total)
         no_grad_through(E, f"{p}.grad.targets_are_gradient_stopped", total, leafs(E, enct) + ["next_obs"])
-        need = [n for n in leafs(E, enc) if not n.endswith(".zs_layer_norm") or True]
-        missing = [n for n in need if n not in gd]
+        missing = [n for n in leafs(E, enc) if n not in gd]
         if missing:
             E.st.fail(f"{p}.grad.trains_the_encoder", f"no differentiable dependence on {missing}")
         else:
